@@ -98,6 +98,16 @@ def run(ctx, rep):
         bad = [t for t in tuples if t['parity_needs_to_be_updated'] != 0 and t['parity_going_to_be_updated'] != 1]
         rep.check(not bad, 'R-C06-3', 'commit %s: needs=1 implies going=1' % c.callee, c.loc(), '%d tuples' % len(tuples), function='state_sync_process', construct='needs implies going at %s' % c.callee)
 
+    # a committed stripe always has its parity write scheduled before the loop moves on or ends normally
+    rep.rule('R-C06-3w', 'after the commit of a stripe every path to the next stripe or to the normal end of the loop passes io_write_next (the write of that stripe is scheduled)', 1)
+    wn = L.slot_calls('io_write_next')
+    ends = list(f.calls('state_progress_end'))
+    if len(wn) != 1 or not ends:
+        raise AnalysisBroken('state_sync_process: io_write_next / state_progress_end not found')
+    blk_commits = [c for c in commits if c.callee == 'block_state_set']
+    r_ = f.reach(blk_commits, stop={wn[0].id})
+    esc = [t for t in [L.block_first(L.header)] + ends if t.id in r_]
+    rep.check(not esc, 'R-C06-3w', 'state_sync_process: commit is always followed by io_write_next', blk_commits[0].loc(), '' if not esc else 'a path from the commit reaches %s without scheduling the parity write' % esc[0].loc(), function='state_sync_process', construct='commit without write')
     rep.rule('R-C06-6', 'content saves reachable from sync are preceded by parity_sync of all levels with the result checked', 2)
     sw = list(f.calls('state_write'))
     ps = list(f.calls('parity_sync'))
